@@ -309,7 +309,8 @@ struct itslot {
 static struct itslot iters[256];
 
 /* merge callbacks */
-struct mergeclos { int mode; int failtok; int id; };
+struct mergeclos { int mode; int failtok; int id; unsigned magic; };
+static struct dupclos { unsigned magic; } the_dupclos = { 0x44555053 };
 static struct mergeclos mclos[256];
 static int n_mclos = 0;
 static int merge_log = 1;
@@ -319,6 +320,14 @@ static void merge_bag(void *clos, const uint8_t *key, size_t len_key,
 		      uint8_t **out, size_t *nout)
 {
 	struct mergeclos *mc = clos;
+	if (!(mc >= mclos && mc < mclos + 256 && mc->magic == 0x4d434c53)) {
+		/* the library handed the callback a closure other than the one registered with it */
+		struct sbuf s = {0};
+		sb_printf(&s, "{\"e\":\"BadClosure\",\"fn\":\"merge\"}");
+		sb_emit(&s);
+		*out = NULL; *nout = 0;
+		return;
+	}
 	/* operands are sorted sequences of 2-byte big-endian tokens; result: sorted multiset union */
 	uint8_t *r = malloc(n0 + n1 + 1);
 	size_t i = 0, j = 0, k = 0;
@@ -346,7 +355,12 @@ static void merge_bag(void *clos, const uint8_t *key, size_t len_key,
 static int dupsort_bytes(void *clos, const uint8_t *key, size_t len_key,
 			 const uint8_t *v0, size_t n0, const uint8_t *v1, size_t n1)
 {
-	(void)clos; (void)key; (void)len_key;
+	(void)key; (void)len_key;
+	if (clos != &the_dupclos) {
+		struct sbuf s = {0};
+		sb_printf(&s, "{\"e\":\"BadClosure\",\"fn\":\"dupsort\"}");
+		sb_emit(&s);
+	}
 	size_t n = n0 < n1 ? n0 : n1;
 	int r = memcmp(v0, v1, n);
 	if (r) return r;
@@ -354,7 +368,7 @@ static int dupsort_bytes(void *clos, const uint8_t *key, size_t len_key,
 }
 static struct mergeclos *new_mclos(int mode, int failtok) {
 	struct mergeclos *mc = &mclos[n_mclos];
-	mc->mode = mode; mc->failtok = failtok; mc->id = n_mclos;
+	mc->mode = mode; mc->failtok = failtok; mc->id = n_mclos; mc->magic = 0x4d434c53;
 	n_mclos++;
 	return mc;
 }
@@ -445,12 +459,23 @@ static struct fnfilter fnfilters[256];
 static int n_fnfilters = 0;
 static bool fname_filter(const char *fname, void *clos) {
 	struct fnfilter *f = clos;
+	if (!(f >= fnfilters && f < fnfilters + 256)) {
+		struct sbuf s = {0};
+		sb_printf(&s, "{\"e\":\"BadClosure\",\"fn\":\"fname_filter\"}");
+		sb_emit(&s);
+		return true;
+	}
 	const char *b = strrchr(fname, '/');
 	b = b ? b + 1 : fname;
 	return strchr(f->chars, b[0]) != NULL;
 }
 static bool reader_filter(struct mtbl_reader *r, void *clos) {
 	long mode = (long)clos;
+	if (mode != 1 && mode != 2) {
+		struct sbuf s = {0};
+		sb_printf(&s, "{\"e\":\"BadClosure\",\"fn\":\"reader_filter\"}");
+		sb_emit(&s);
+	}
 	uint64_t n = mtbl_metadata_count_entries(mtbl_reader_metadata(r));
 	return mode == 1 ? (n % 2 == 0) : (n % 2 == 1);
 }
@@ -718,7 +743,7 @@ static void run_line(char *line) {
 		struct mtbl_merger_options *o = mtbl_merger_options_init();
 		int mcid = -1;
 		if (IARG(2)) { mcid = n_mclos; mtbl_merger_options_set_merge_func(o, merge_bag, new_mclos((int)IARG(2), (int)IARG(3))); }
-		if (IARG(4)) mtbl_merger_options_set_dupsort_func(o, dupsort_bytes, NULL);
+		if (IARG(4)) mtbl_merger_options_set_dupsort_func(o, dupsort_bytes, &the_dupclos);
 		mergers[m] = mtbl_merger_init(o);
 		mtbl_merger_options_destroy(&o);
 		sb_printf(&s, "{\"e\":\"MInit\",\"m\":%d,\"merge\":%ld,\"failtok\":%ld,\"dupsort\":%ld,\"mc\":%d}", m, IARG(2), IARG(3), IARG(4), mcid);
@@ -806,7 +831,7 @@ static void run_line(char *line) {
 			mtbl_fileset_options_set_reload_interval(o, iv);
 		}
 		if (IARG(4)) mtbl_fileset_options_set_merge_func(o, merge_bag, new_mclos((int)IARG(4), -1));
-		if (IARG(5)) mtbl_fileset_options_set_dupsort_func(o, dupsort_bytes, NULL);
+		if (IARG(5)) mtbl_fileset_options_set_dupsort_func(o, dupsort_bytes, &the_dupclos);
 		if (strcmp(ARG(6), "-")) {
 			struct fnfilter *ff = &fnfilters[n_fnfilters++];
 			snprintf(ff->chars, sizeof ff->chars, "%s", ARG(6));
@@ -914,6 +939,12 @@ static void run_line(char *line) {
 	} else if (!strcmp(op, "mergelog")) {
 		merge_log = (int)IARG(1);
 		return;
+	} else if (!strcmp(op, "setenv")) {
+		/* setenv NAME VALUE | setenv NAME -   (documented environment knobs of the library, e.g. MTBL_READER_MADVISE_RANDOM) */
+		if (nt > 2 && strcmp(ARG(2), "-")) setenv(ARG(1), ARG(2), 1); else unsetenv(ARG(1));
+		return;
+	} else if (!strcmp(op, "sched_dec")) {
+		return;		/* consumed by run_exec before the scheduler starts */
 	} else if (!strcmp(op, "note")) {
 		sb_printf(&s, "{\"e\":\"Note\",\"t\":\"%s\"}", nt > 1 ? ARG(1) : "");
 	} else {
@@ -947,7 +978,17 @@ static void run_exec(char **lines, size_t n, long xno) {
 	int npre = atoi(getenv("VS_NPRE") ? getenv("VS_NPRE") : "0");
 	vs_on_deadlock = drv_on_deadlock;
 	vs_config(mode, 1, npre, 400, seed);
-	vs_begin(seed, spur);
+	bool systematic = false;
+	if (n > 0 && !strncmp(lines[0], "sched_dec ", 10)) {
+		/* sched_dec <policy> [step:choice ...]: no preemption except at the given steps (systematic exploration) */
+		long st[8]; int ch[8]; int nd = 0, policy = 0, off = 0;
+		const char *q = lines[0] + 10;
+		if (sscanf(q, "%d%n", &policy, &off) == 1) q += off;
+		while (nd < 8 && sscanf(q, " %ld:%d%n", &st[nd], &ch[nd], &off) == 2) { q += off; nd++; }
+		vs_decisions(nd, st, ch, policy);
+		systematic = true;
+	}
+	vs_begin(seed, systematic ? 0 : spur);
 #else
 	(void)xno;
 #endif
@@ -955,7 +996,7 @@ static void run_exec(char **lines, size_t n, long xno) {
 #ifdef VS_SCHED
 	int steps = vs_end();
 	struct sbuf s = {0};
-	sb_printf(&s, "{\"e\":\"Sched\",\"steps\":%d,\"maxlive\":%d}", steps, vs_max_threads_seen);
+	sb_printf(&s, "{\"e\":\"Sched\",\"steps\":%d,\"maxlive\":%d,\"invalid\":%d}", steps, vs_max_threads_seen, vs_decision_invalid);
 	sb_emit(&s);
 #endif
 }
@@ -992,6 +1033,10 @@ int main(int argc, char **argv) {
 			fflush(NULL);
 			pid_t pid = fork();
 			if (pid == 0) {
+				/* watchdog: an execution that does not end (e.g. a decoder spinning on damaged input) is ended by
+				 * SIGALRM and shows as {"e":"Exit","sig":14}; the other executions of the script still run */
+				const char *wt = getenv("VS_EXEC_TIMEOUT");
+				alarm(wt ? (unsigned)atoi(wt) : 300);
 				run_exec(lines, nl, xno);
 				_exit(0);
 			}
